@@ -134,6 +134,7 @@ impl View2 {
     ///
     /// Returns `true` if the view has changed, `false` otherwise
     pub fn zoom(&mut self, amount: f32, pos: Option<Point2<f32>>) -> bool {
+        let prev = *self;
         match pos {
             Some(before) => {
                 let pos_before = self.transform_point(&before);
@@ -145,7 +146,7 @@ impl View2 {
                 self.scale *= amount;
             }
         }
-        amount != 1.0
+        *self != prev
     }
 }
 
@@ -266,6 +267,7 @@ impl View3 {
     ///
     /// Returns `true` if the view has changed, `false` otherwise
     pub fn zoom(&mut self, amount: f32, pos: Option<Point3<f32>>) -> bool {
+        let prev = *self;
         match pos {
             Some(before) => {
                 let pos_before = self.transform_point(&before);
@@ -277,7 +279,7 @@ impl View3 {
                 self.scale *= amount;
             }
         }
-        amount != 1.0
+        *self != prev
     }
 
     /// Begins a rotation operation, given a point in world space
